@@ -103,7 +103,24 @@ func (r *Refs) IsBranchExist(branchName string) bool {
 	return p != NewBranchFlag
 }
 
+// a branch is stored as the file refs/heads/<name>, so the name must be a single plain path component
+func isValidBranchName(name string) bool {
+	if name == "" || name == "." || name == ".." {
+		return false
+	}
+	for _, c := range name {
+		if c == '/' || c == '\\' || c < 0x20 || c == 0x7f {
+			return false
+		}
+	}
+	return true
+}
+
 func (r *Refs) AddBranch(rootGoitPath, newBranchName string, newBranchHash sha.SHA1) error {
+	if !isValidBranchName(newBranchName) {
+		return fmt.Errorf("'%s' is not a valid branch name", newBranchName)
+	}
+
 	// check if branch already exists
 	n := r.getBranchPos(newBranchName)
 	if n != NewBranchFlag {
@@ -125,6 +142,10 @@ func (r *Refs) AddBranch(rootGoitPath, newBranchName string, newBranchHash sha.S
 }
 
 func (r *Refs) RenameBranch(rootGoitPath, curBranchName, newBranchName string) error {
+	if !isValidBranchName(newBranchName) {
+		return fmt.Errorf("'%s' is not a valid branch name", newBranchName)
+	}
+
 	// check if new branch name is not used for other branches
 	n := r.getBranchPos(newBranchName)
 	if n != NewBranchFlag {
